@@ -1,7 +1,613 @@
 package bpbsim
 
-import "github.com/AdguardTeam/AdGuardDNS/verif/kernel"
+import (
+	"context"
+	"errors"
+	"fmt"
+	"log/slog"
+	"net"
+	"net/netip"
+	"sort"
+	"strconv"
+	"strings"
+	"time"
 
-type profBackend struct{}
+	"github.com/AdguardTeam/AdGuardDNS/internal/agd"
+	"github.com/AdguardTeam/AdGuardDNS/internal/backendpb"
+	"github.com/AdguardTeam/AdGuardDNS/internal/profiledb"
+	"github.com/AdguardTeam/AdGuardDNS/verif/kernel"
+	"github.com/AdguardTeam/AdGuardDNS/verif/simnet"
+	"github.com/AdguardTeam/golibs/netutil"
+	"google.golang.org/grpc"
+	"google.golang.org/grpc/codes"
+	"google.golang.org/grpc/metadata"
+	"google.golang.org/grpc/status"
+	"google.golang.org/protobuf/types/known/durationpb"
+)
 
-func runC14(s *kernel.Sim, cfg string) { panic("not yet") }
+// C14, backend part: the real profile database fed by the real gRPC profile
+// storage from a simulated backend.  The backend holds profiles and devices
+// in the form of the service's protobuf messages and changes them between
+// synchronisations; some profiles and devices are such that the client must
+// reject them.  The reference is the content of the successful
+// synchronisations, applied as the statement says.
+
+// bDev is a device as the backend has it.
+type bDev struct {
+	id        string
+	name      string
+	linked    netip.Addr
+	dedicated []netip.Addr
+	human     string
+	authOn    bool
+	dohOnly   bool
+	hash      bool
+	filtering bool
+}
+
+// bProf is a profile as the backend has it.
+type bProf struct {
+	id      string
+	deleted bool
+	devs    []*bDev
+	mod     int64
+	autoDev bool
+	qlog    bool
+
+	// badMode gives the profile a custom-IP blocking mode without addresses,
+	// which the client must reject (the whole profile).
+	badMode bool
+}
+
+type profBackend struct {
+	profs []*bProf
+	clock int64
+
+	// fault of the next profiles call: "", "before", "middle", "deadline",
+	// "no-trailer".
+	fault   string
+	faultAt int
+
+	// lastReq / lastSent describe the last call.
+	lastFull bool
+	lastSent []*bProf
+	called   bool
+}
+
+var (
+	bindPrefix   = netip.MustParsePrefix("198.18.10.0/24")
+	linkedPool   = []string{"10.1.0.1", "10.1.0.2", "10.1.0.3", "2001:db8:7::1"}
+	dedicatedIn  = []string{"198.18.10.11", "198.18.10.12"}
+	dedicatedOut = "192.0.2.99" // not an address of any server: the device must be rejected
+	humanPool    = []string{"alpha", "beta"}
+	baseMS       = time.Date(2000, 1, 1, 0, 0, 0, 0, time.UTC).UnixMilli()
+)
+
+func (d *bDev) valid() bool {
+	if _, err := agd.NewDeviceID(d.id); err != nil {
+		return false
+	}
+	for _, ip := range d.dedicated {
+		if !bindPrefix.Contains(ip) {
+			return false
+		}
+	}
+
+	return true
+}
+
+func (d *bDev) proto() (p *backendpb.DeviceSettings) {
+	p = &backendpb.DeviceSettings{
+		Id:               d.id,
+		Name:             d.name,
+		HumanIdLower:     d.human,
+		FilteringEnabled: d.filtering,
+	}
+	if d.linked.IsValid() {
+		p.LinkedIp, _ = d.linked.MarshalBinary()
+	}
+	for _, ip := range d.dedicated {
+		b, _ := ip.MarshalBinary()
+		p.DedicatedIps = append(p.DedicatedIps, b)
+	}
+	if d.authOn {
+		p.Authentication = &backendpb.AuthenticationSettings{DohAuthOnly: d.dohOnly}
+		if d.hash {
+			p.Authentication.DohPasswordHash = &backendpb.AuthenticationSettings_PasswordHashBcrypt{
+				PasswordHashBcrypt: []byte("$2a$04$abcdefghijklmnopqrstuu7Qq3q3q3q3q3q3q3q3q3q3q3q3q3q3q"),
+			}
+		}
+	}
+
+	return p
+}
+
+func (p *bProf) proto() (x *backendpb.DNSProfile) {
+	x = &backendpb.DNSProfile{
+		DnsId:               p.id,
+		Deleted:             p.deleted,
+		FilteringEnabled:    true,
+		QueryLogEnabled:     p.qlog,
+		AutoDevicesEnabled:  p.autoDev,
+		FilteredResponseTtl: durationpb.New(10 * time.Second),
+	}
+	for _, d := range p.devs {
+		x.Devices = append(x.Devices, d.proto())
+	}
+	if p.badMode {
+		x.BlockingMode = &backendpb.DNSProfile_BlockingModeCustomIp{BlockingModeCustomIp: &backendpb.BlockingModeCustomIP{}}
+	} else {
+		x.BlockingMode = &backendpb.DNSProfile_BlockingModeNxdomain{BlockingModeNxdomain: &backendpb.BlockingModeNXDOMAIN{}}
+	}
+
+	return x
+}
+
+// GetDNSProfiles implements the profile stream of the backend.
+func (b *backend) GetDNSProfiles(req *backendpb.DNSProfilesRequest, stream grpc.ServerStreamingServer[backendpb.DNSProfile]) error {
+	pb := b.prof
+	pb.called = true
+	fault, at := pb.fault, pb.faultAt
+	pb.fault = ""
+
+	if fault == "before" {
+		b.s.Fault("backend-error-before-stream")
+
+		return status.Error(codes.Unavailable, "sim backend: unavailable")
+	}
+
+	full := req.SyncTime == nil || req.SyncTime.AsTime().IsZero()
+	since := int64(0)
+	if !full {
+		since = req.SyncTime.AsTime().UnixMilli() - baseMS
+	}
+	pb.lastFull = full
+	pb.lastSent = nil
+	for _, p := range pb.profs {
+		if full && p.deleted {
+			continue
+		}
+		if full || p.mod > since {
+			pb.lastSent = append(pb.lastSent, p)
+		}
+	}
+
+	for i, p := range pb.lastSent {
+		if fault == "middle" && i >= at {
+			b.s.Fault("backend-error-mid-stream")
+
+			return status.Error(codes.Internal, "sim backend: storage failure")
+		}
+		if err := stream.Send(p.proto()); err != nil {
+			return err
+		}
+	}
+
+	switch fault {
+	case "middle":
+		// Fewer profiles than the fault position: fail at the end.
+		b.s.Fault("backend-error-mid-stream")
+
+		return status.Error(codes.Internal, "sim backend: storage failure")
+	case "deadline":
+		b.s.Fault("backend-deadline-exceeded")
+
+		return status.Error(codes.DeadlineExceeded, "sim backend: deadline exceeded")
+	case "no-trailer":
+		b.s.Fault("backend-no-sync-time")
+
+		return nil
+	}
+
+	pb.clock++
+	stream.SetTrailer(metadata.Pairs("sync_time", strconv.FormatInt(baseMS+pb.clock, 10)))
+
+	return nil
+}
+
+// ---- the reference ----
+
+type mProf struct {
+	deleted bool
+	devs    []string
+}
+
+type mDev struct {
+	linked    netip.Addr
+	dedicated []netip.Addr
+	human     string
+}
+
+type dbModel struct {
+	profs map[string]*mProf
+	devs  map[string]*mDev
+}
+
+func (m *dbModel) apply(full bool, sent []*bProf) {
+	if full {
+		m.profs, m.devs = map[string]*mProf{}, map[string]*mDev{}
+	}
+	for _, p := range sent {
+		if p.badMode {
+			// Rejected as a whole: what the database had stays.
+			continue
+		}
+		mp := &mProf{deleted: p.deleted}
+		for _, d := range p.devs {
+			if !d.valid() {
+				continue
+			}
+			mp.devs = append(mp.devs, d.id)
+			m.devs[d.id] = &mDev{linked: d.linked, dedicated: append([]netip.Addr(nil), d.dedicated...), human: d.human}
+		}
+		m.profs[p.id] = mp
+	}
+}
+
+// owners returns the profiles that currently list the device.
+func (m *dbModel) owners(dev string) (ps []string) {
+	for id, p := range m.profs {
+		for _, d := range p.devs {
+			if d == dev {
+				ps = append(ps, id)
+			}
+		}
+	}
+	sort.Strings(ps)
+
+	return ps
+}
+
+// expect returns what a lookup must find: the profile and device, "" for
+// not found; ok is false when the reference itself is ambiguous (a rejected
+// profile kept an old list that overlaps a newer one).
+func (m *dbModel) expect(kind, arg, prof string) (wantProf, wantDev string, ok bool) {
+	var cands []string
+	for id, d := range m.devs {
+		switch kind {
+		case "id":
+			if id == arg {
+				cands = append(cands, id)
+			}
+		case "linked":
+			if d.linked.IsValid() && d.linked.String() == arg {
+				cands = append(cands, id)
+			}
+		case "dedicated":
+			for _, ip := range d.dedicated {
+				if ip.String() == arg {
+					cands = append(cands, id)
+				}
+			}
+		case "human":
+			if d.human != "" && d.human == arg {
+				cands = append(cands, id)
+			}
+		}
+	}
+	sort.Strings(cands)
+
+	type hit struct{ p, d string }
+	var hits []hit
+	for _, c := range cands {
+		os := m.owners(c)
+		if len(os) > 1 {
+			return "", "", false
+		}
+		if len(os) == 1 && (kind != "human" || os[0] == prof) {
+			hits = append(hits, hit{os[0], c})
+		}
+	}
+	switch len(hits) {
+	case 0:
+		return "", "", true
+	case 1:
+		return hits[0].p, hits[0].d, true
+	}
+
+	return "", "", false
+}
+
+func runC14(s *kernel.Sim, _ string) {
+	t := s.T
+	n := simnet.New(s)
+	s.Dial = func(_, addr string, _ time.Duration) (net.Conn, error) {
+		return n.Dial(addr, n.ClientAddr(clientIP))
+	}
+	b, stop := startBackend(s, n)
+	defer stop()
+	pb := &profBackend{}
+	b.prof = pb
+
+	// ---- the backend's initial content ----
+	nProf := t.Range(1, 4, "profiles")
+	devN := 0
+	newDev := func(owner *bProf) *bDev {
+		d := &bDev{id: fmt.Sprintf("dev%d", devN), name: fmt.Sprintf("Device %d", devN), filtering: true}
+		devN++
+		mutateDev(t, pb, owner, d)
+
+		return d
+	}
+	for i := 0; i < nProf; i++ {
+		p := &bProf{id: fmt.Sprintf("prof%d", i), mod: 1, autoDev: t.Chance(1, 2, "auto-devices"), qlog: t.Chance(1, 2, "qlog"),
+			badMode: t.Chance(1, 5, "bad-mode")}
+		pb.profs = append(pb.profs, p)
+		for j, k := 0, t.Range(0, 3, "devices"); j < k; j++ {
+			p.devs = append(p.devs, newDev(p))
+		}
+	}
+	pb.clock = 1
+
+	ec := &nopErrColl{}
+	st, err := backendpb.NewProfileStorage(&backendpb.ProfileStorageConfig{
+		BindSet:              netutil.SliceSubnetSet{bindPrefix},
+		ErrColl:              ec,
+		Logger:               slog.New(slog.DiscardHandler),
+		GRPCMetrics:          backendpb.EmptyGRPCMetrics{},
+		Metrics:              backendpb.EmptyProfileDBMetrics{},
+		Endpoint:             endpoint(),
+		ResponseSizeEstimate: 1000,
+		MaxProfilesSize:      1 << 20,
+	})
+	if err != nil {
+		panic(err)
+	}
+
+	const fullIvl = time.Hour
+	db, err := profiledb.New(&profiledb.Config{
+		Logger:           slog.New(slog.DiscardHandler),
+		Storage:          st,
+		ErrColl:          ec,
+		Metrics:          profiledb.EmptyMetrics{},
+		CacheFilePath:    "none",
+		FullSyncIvl:      fullIvl,
+		FullSyncRetryIvl: time.Minute,
+	})
+	if err != nil {
+		panic(err)
+	}
+
+	m := &dbModel{profs: map[string]*mProf{}, devs: map[string]*mDev{}}
+	ctx := context.Background()
+	synced := false
+
+	sync := func(withFaults bool) {
+		pb.fault = ""
+		if withFaults && t.Chance(1, 4, "sync-fault") {
+			pb.fault = kernel.Pick(t, []string{"before", "middle", "deadline", "no-trailer"}, "fault-kind")
+			pb.faultAt = t.Range(0, 2, "fault-at")
+		}
+		fault := pb.fault
+		pb.called = false
+		rctx, cancel := context.WithTimeout(ctx, 30*time.Second)
+		rerr := db.Refresh(rctx)
+		cancel()
+		var desc []string
+		for _, p := range pb.lastSent {
+			ds := []string{}
+			for _, d := range p.devs {
+				ds = append(ds, fmt.Sprintf("%s(l=%v d=%v h=%q valid=%v)", d.id, d.linked, d.dedicated, d.human, d.valid()))
+			}
+			desc = append(desc, fmt.Sprintf("%s{del=%v bad=%v %s}", p.id, p.deleted, p.badMode, strings.Join(ds, " ")))
+		}
+		s.Logf("sync: fault=%q called=%v full=%v err=%v sent=%v", fault, pb.called, pb.lastFull, rerr, desc)
+		if rerr != nil {
+			if fault == "" {
+				s.Failf("C14/sync-failed", "synchronisation failed without a backend fault", "%v", rerr)
+			}
+
+			return
+		}
+		if fault != "" {
+			s.Failf("C14/faulty-sync-accepted", "a synchronisation the backend did not complete was applied as successful",
+				"backend fault %q (full=%v, %d profiles on the stream): Refresh returned nil", fault, pb.lastFull, len(pb.lastSent))
+
+			return
+		}
+		m.apply(pb.lastFull, pb.lastSent)
+		synced = true
+		if pb.lastFull {
+			s.Probe("full-sync")
+		} else {
+			s.Probe("incremental-sync")
+		}
+	}
+
+	touch := func(p *bProf) {
+		pb.clock++
+		p.mod = pb.clock
+	}
+
+	lookup := func() {
+		kind := kernel.Pick(t, []string{"id", "id", "linked", "dedicated", "human"}, "lookup-kind")
+		var arg, prof string
+		var gp *agd.Profile
+		var gd *agd.Device
+		var lerr error
+		switch kind {
+		case "id":
+			arg = fmt.Sprintf("dev%d", t.Choose(devN+1, "which-device"))
+			gp, gd, lerr = db.ProfileByDeviceID(ctx, agd.DeviceID(arg))
+		case "linked":
+			arg = kernel.Pick(t, linkedPool, "which-linked")
+			gp, gd, lerr = db.ProfileByLinkedIP(ctx, netip.MustParseAddr(arg))
+		case "dedicated":
+			arg = kernel.Pick(t, dedicatedIn, "which-dedicated")
+			gp, gd, lerr = db.ProfileByDedicatedIP(ctx, netip.MustParseAddr(arg))
+		case "human":
+			arg = kernel.Pick(t, humanPool, "which-human")
+			prof = fmt.Sprintf("prof%d", t.Choose(nProf, "which-profile"))
+			gp, gd, lerr = db.ProfileByHumanID(ctx, agd.ProfileID(prof), agd.HumanIDLower(arg))
+		}
+		if lerr != nil && !errors.Is(lerr, profiledb.ErrDeviceNotFound) && !errors.Is(lerr, profiledb.ErrProfileNotFound) {
+			s.Failf("C14/lookup-error", "lookup returned an unexpected error", "%s %s: %v", kind, arg, lerr)
+
+			return
+		}
+		gotP, gotD := "", ""
+		if lerr == nil {
+			gotP, gotD = string(gp.ID), string(gd.ID)
+		}
+		wantP, wantD, ok := m.expect(kind, arg, prof)
+		s.Logf("lookup %s %s %s -> %s/%s (reference %s/%s judged=%v)", kind, prof, arg, gotP, gotD, wantP, wantD, ok)
+		if !ok {
+			s.Probe("reference-ambiguous-not-judged")
+
+			return
+		}
+		if gotP != wantP || gotD != wantD {
+			s.Failf("C14/backend-lookup", "lookup does not reflect the latest synchronised backend data",
+				"by %s %s %s: database says %q/%q, the synchronised data say %q/%q", kind, prof, arg, gotP, gotD, wantP, wantD)
+
+			return
+		}
+		if lerr == nil {
+			if gp.Deleted != m.profs[wantP].deleted {
+				s.Failf("C14/backend-lookup", "deleted flag of the profile does not reflect the latest synchronised data",
+					"profile %s: deleted=%v, backend said %v", wantP, gp.Deleted, m.profs[wantP].deleted)
+
+				return
+			}
+			s.MarkNontrivial()
+		}
+	}
+
+	nOps := t.Range(4, 40, "ops")
+	for i := 0; i < nOps && s.Failed() == nil; i++ {
+		// Let the database's background clean-ups finish.
+		time.Sleep(time.Millisecond)
+		switch op := t.Choose(10, "op"); {
+		case !synced || op == 0 || op == 1:
+			if t.Chance(1, 4, "long-gap") {
+				// Time for a full synchronisation.
+				time.Sleep(fullIvl + time.Second)
+			} else if t.Chance(1, 3, "retry-gap") {
+				time.Sleep(time.Minute + time.Second)
+			}
+			sync(true)
+		case op == 2:
+			// A device changes its settings.
+			p := kernel.Pick(t, pb.profs, "profile")
+			if len(p.devs) > 0 {
+				d := kernel.Pick(t, p.devs, "device")
+				mutateDev(t, pb, p, d)
+				touch(p)
+				s.Logf("backend: %s/%s now linked=%v dedicated=%v human=%q", p.id, d.id, d.linked, d.dedicated, d.human)
+			}
+		case op == 3:
+			// A device moves to another profile.
+			from, to := kernel.Pick(t, pb.profs, "from"), kernel.Pick(t, pb.profs, "to")
+			if from != to && len(from.devs) > 0 {
+				k := t.Choose(len(from.devs), "device")
+				d := from.devs[k]
+				from.devs = append(from.devs[:k:k], from.devs[k+1:]...)
+				to.devs = append(to.devs, d)
+				touch(from)
+				touch(to)
+				s.Logf("backend: %s moves %s -> %s", d.id, from.id, to.id)
+			}
+		case op == 4:
+			p := kernel.Pick(t, pb.profs, "profile")
+			if len(p.devs) < 4 {
+				d := newDev(p)
+				if t.Chance(1, 6, "bad-device-id") {
+					d.id = "bad id!"
+				}
+				p.devs = append(p.devs, d)
+				touch(p)
+				s.Logf("backend: new device %s in %s", d.id, p.id)
+			}
+		case op == 5:
+			p := kernel.Pick(t, pb.profs, "profile")
+			if len(p.devs) > 0 {
+				k := t.Choose(len(p.devs), "device")
+				s.Logf("backend: device %s removed from %s", p.devs[k].id, p.id)
+				p.devs = append(p.devs[:k:k], p.devs[k+1:]...)
+				touch(p)
+			}
+		case op == 6:
+			p := kernel.Pick(t, pb.profs, "profile")
+			p.deleted = !p.deleted
+			touch(p)
+			s.Logf("backend: %s deleted=%v", p.id, p.deleted)
+		case op == 7 && t.Chance(1, 2, "repair-mode"):
+			// A profile the client has had to reject so far is repaired.  (The
+			// other direction would leave the database with the last accepted
+			// state of the profile next to newer states of others, for which
+			// the statement defines nothing.)
+			p := kernel.Pick(t, pb.profs, "profile")
+			if p.badMode {
+				p.badMode = false
+				touch(p)
+				s.Logf("backend: %s gets a usable blocking mode", p.id)
+			}
+		default:
+			lookup()
+		}
+	}
+	if s.Failed() != nil {
+		return
+	}
+
+	// Faults off: one synchronisation, then every key is looked up.
+	time.Sleep(time.Minute + time.Second)
+	sync(false)
+	for i := 0; i < 12 && s.Failed() == nil; i++ {
+		time.Sleep(time.Millisecond)
+		lookup()
+	}
+}
+
+// mutateDev gives the device tape-chosen settings.  A linked address, a
+// dedicated address and a human-readable ID within a profile have one owner
+// in the backend: a device that takes one over takes it away from the device
+// that had it (whose profile counts as changed).
+func mutateDev(t *kernel.Tape, pb *profBackend, owner *bProf, d *bDev) {
+	d.linked = netip.Addr{}
+	if t.Chance(1, 2, "has-linked") {
+		d.linked = netip.MustParseAddr(kernel.Pick(t, linkedPool, "linked"))
+	}
+	d.dedicated = nil
+	if t.Chance(1, 3, "has-dedicated") {
+		d.dedicated = append(d.dedicated, netip.MustParseAddr(kernel.Pick(t, dedicatedIn, "dedicated")))
+		if t.Chance(1, 6, "dedicated-outside") {
+			d.dedicated = append(d.dedicated, netip.MustParseAddr(dedicatedOut))
+		}
+	}
+	d.human = ""
+	if t.Chance(1, 3, "has-human") {
+		d.human = kernel.Pick(t, humanPool, "human")
+	}
+	d.authOn = t.Chance(1, 3, "auth")
+	d.dohOnly = d.authOn && t.Chance(1, 2, "doh-only")
+	d.hash = d.authOn && t.Chance(1, 2, "hash")
+
+	for _, p := range pb.profs {
+		for _, o := range p.devs {
+			if o == d {
+				continue
+			}
+			changed := false
+			if d.linked.IsValid() && o.linked == d.linked {
+				o.linked, changed = netip.Addr{}, true
+			}
+			for _, ip := range d.dedicated {
+				for k := 0; k < len(o.dedicated); k++ {
+					if o.dedicated[k] == ip {
+						o.dedicated = append(o.dedicated[:k:k], o.dedicated[k+1:]...)
+						k--
+						changed = true
+					}
+				}
+			}
+			if d.human != "" && o.human == d.human && p == owner {
+				o.human, changed = "", true
+			}
+			if changed {
+				pb.clock++
+				p.mod = pb.clock
+			}
+		}
+	}
+}
